@@ -8,6 +8,7 @@ package workceptor
 import (
 	"bufio"
 	"encoding/json"
+	"context"
 	"fmt"
 	"os"
 	"path"
@@ -437,6 +438,56 @@ func (lw *lifeWorld) runUnit(u lifeUnit) (o lifeObs) {
 		_, derr := os.Stat(path.Join(lw.vw.w.dataDir, id))
 		o.DirAfter = derr == nil
 		o.Final = [2]int64{2, 0}
+	case "releasedsubmit":
+		// client A submits a command unit and is still sending its stdin; client B releases the (pending) unit; then A's
+		// stdin ends and the submission goes on to start the unit: the released unit must stay gone
+		marker := fmt.Sprintf("rs-marker-%d", time.Now().UnixNano())
+		hold, entered, done := make(chan struct{}), make(chan struct{}), make(chan struct{})
+		go func() {
+			defer close(done)
+			t := &workceptorCommandType{w: lw.vw.w}
+			cmd, err := t.InitFromJSON(map[string]interface{}{"command": "work", "subcommand": "submit", "node": "localhost", "worktype": "cmd",
+				"params": "-c 'true # " + marker + "'"})
+			if err != nil {
+				return
+			}
+			cfo := &verifCFO{network: "unix", stdin: "", hold: hold, entered: entered}
+			_, _ = cmd.ControlFunc(context.Background(), lw.vw.nc, cfo)
+		}()
+		select {
+		case <-entered:
+		case <-time.After(5 * time.Second):
+			o.Err = "the submission never asked for its stdin"
+			close(hold)
+			return
+		}
+		if ents, derr := os.ReadDir(lw.vw.w.dataDir); derr == nil {
+			for _, e := range ents {
+				if b, rerr := os.ReadFile(path.Join(lw.vw.w.dataDir, e.Name(), "status")); rerr == nil && strings.Contains(string(b), marker) {
+					id = e.Name()
+				}
+			}
+		}
+		if id == "" {
+			o.Err = "the unit of the pending submission was not found on disk"
+			close(hold)
+			<-done
+			return
+		}
+		if _, rerr := lw.cmd(map[string]interface{}{"subcommand": "release", "unitid": id}, ""); rerr != nil {
+			o.Err = "release of the pending unit: " + rerr.Error()
+		}
+		close(hold)
+		select {
+		case <-done:
+		case <-time.After(8 * time.Second):
+			o.Err = "the submission did not return after its stdin ended"
+		}
+		time.Sleep(900 * time.Millisecond) // a runner launched for the released unit has had its chance
+		_, serr := lw.cmd(map[string]interface{}{"subcommand": "status", "unitid": id}, "")
+		o.KnownAfter = serr == nil
+		_, derr := os.Stat(path.Join(lw.vw.w.dataDir, id))
+		o.DirAfter = derr == nil
 	case "burst":
 		ids := make([]string, u.N)
 		var wg sync.WaitGroup
@@ -545,6 +596,7 @@ func lifeGen(v *verifRun) {
 		}
 		v.do(lifeApply, "units", a)
 	}
+	v.do(lifeApply, "units", lifeArgs{Units: []lifeUnit{{Kind: "releasedsubmit", N: 0, M: 0}}})
 }
 
 func TestVerifLife(t *testing.T) {
